@@ -220,6 +220,35 @@ def run(ck):
                 len(deliv), closed, data.hex(), [len(c) for c in ch], len(exp_d), exp_c), {"script": lines, "observed": [l for l in o["out"] if l[:2] in ("cb", "ev")]})
         if deliv:
             ck.nontriv((tag, tuple(len(c) for c in ch), "trace"))
+    # ---- slot reuse: a connection that the SERVER ends (t3 / t1) while a partial APDU is pending must not leak
+    #      its reassembly state into the next connection accepted on the same slot
+    ru_scripts, rmeta = [], {}
+    for i, (tag, data) in enumerate([x for x in streams if standard_frames_only(x[1])][: (12 if quick else 100)]):
+        for cut in sorted({1, 2, 3, 5, 6, 7, rng.range(1, 12)}):
+            partial = (apci.STARTDT_ACT + apci.i_frame(0, 0, apci.asdu(200, 3, 1, bytes(9))))[: 6 + cut]
+            sid = "%s.u%d" % (tag, cut)
+            lines = ["cfg handlers=64 w=20000 k=12 t1=2 t2=1 t3=3", "start", "connect c0 10.1.1.1:1111", "tick",
+                     "rx c0 " + partial.hex(), "tick 3", "adv 3001", "tick", "adv 2001", "tick 3",
+                     "connect c1 10.1.1.1:1112", "tick", "rx c1 " + data.hex(), "tick %d" % (len(apci.split_stream(data)[0]) + 3)]
+            ru_scripts.append((sid, lines))
+            rmeta[sid] = data
+    rr = runner.run_batch(hsrv, ru_scripts)
+    ck.count("slot_reuse_scripts", len(ru_scripts))
+    for sid, lines in ru_scripts:
+        ck.evaluations += 1
+        o = rr.get(sid, dict(out=[], crash=None))
+        if o["crash"]:
+            ck.fail("input", "crash:%s:%s" % (o["crash"]["kind"], o["crash"]["site"]), "server aborted: %s at %s" % (o["crash"]["kind"], o["crash"]["site"]),
+                    {"script": lines, "stderr": o["crash"]["text"]})
+            continue
+        closed0 = any(l.startswith("ev c0 CLOSED") for l in o["out"])
+        deliv = [l.split("asdu=")[1] for l in o["out"] if l.startswith("cb asdu c1")]
+        closed1 = any(l.startswith("ev c1 CLOSED") for l in o["out"])
+        exp_d, exp_c = ref_delivery(rmeta[sid])
+        if closed0 and (deliv != [d.hex() for d in exp_d] or closed1 != exp_c):
+            ck.fail("input", "oracle:delivery:slot-reuse", "after the server ended a connection with a partial APDU pending, the next connection on the slot delivered %d ASDUs closed=%s; its own stream contains %d deliverable ASDUs, closed=%s" % (
+                len(deliv), closed1, len(exp_d), exp_c), {"script": lines, "observed": [l for l in o["out"] if l[:2] in ("cb", "ev")]})
+        ck.nontriv((sid, "reuse"))
     for tag, d in by_stream.items():
         if len(d) > 1:
             ks = list(d.items())
